@@ -17,7 +17,7 @@ from ..engine.srcmodel import AnalysisError, FuncInfo, dotted, stmt_text, walk_l
 from ..engine.cfg import CFG, Node, node_writes
 from ..engine.regmodel import RegModel, MethodRef
 from ..engine.report import RuleResult, Finding
-from .common import finding
+from .common import finding, enclosing_map
 
 SPEC = os.path.join(os.path.dirname(os.path.dirname(os.path.abspath(__file__))),
                     'specs', 'axes.json')
@@ -168,6 +168,18 @@ def _iter_calls(f: FuncInfo) -> list[ast.Call]:
             and dotted(n.func.value) == 'context']
 
 
+def flat_body(stmts: list[ast.stmt]) -> list[ast.stmt]:
+    """The statement list with every `try: .. finally: ..` (no handlers) replaced by its body
+    followed by its finally block: the focus functions restore the focus in a finally."""
+    out: list[ast.stmt] = []
+    for st in stmts:
+        if isinstance(st, ast.Try) and not st.handlers and st.finalbody:
+            out += flat_body(st.body) + flat_body(st.orelse) + flat_body(st.finalbody)
+        else:
+            out.append(st)
+    return out
+
+
 def numbering(f: FuncInfo, stmts: list[ast.stmt], recv: str) -> tuple[str, str, Optional[ast.AST]]:
     """
     Classify how a statement list numbers the focus: returns (direction, size, node) with
@@ -176,6 +188,7 @@ def numbering(f: FuncInfo, stmts: list[ast.stmt], recv: str) -> tuple[str, str, 
     pos, size, item = f'{recv}.position', f'{recv}.size', f'{recv}.item'
     size_src: Optional[str] = None
     pos_init: Optional[str] = None
+    stmts = flat_body(stmts)
     loops = [s for s in stmts if isinstance(s, ast.For)]
     if len(loops) != 1:
         return f'unknown:{len(loops)} loops', 'unknown', None
@@ -374,7 +387,7 @@ def r01_2(ctx, counts: dict[str, int]) -> RuleResult:
     if swf_axis is None or base is None:
         raise AnalysisError('select_with_focus vanished')
     recv = swf_axis.params()[1]
-    branch = [n for n in swf_axis.node.body if isinstance(n, ast.If)
+    branch = [n for n in flat_body(swf_axis.node.body) if isinstance(n, ast.If)
               and stmt_text(n.test) == 'self.reverse_axis']
     if len(branch) != 1:
         raise AnalysisError('XPathAxis.select_with_focus: the reverse_axis branch was not found')
@@ -415,7 +428,7 @@ def r01_2(ctx, counts: dict[str, int]) -> RuleResult:
                          f'context.size is {s}, not the length of the materialised list'))
     # materialisation: results list built before the focus loop
     for m in (swf_axis, base):
-        lists = [n for n in m.node.body if isinstance(n, ast.Assign)
+        lists = [n for n in flat_body(m.node.body) if isinstance(n, ast.Assign)
                  and isinstance(n.value, (ast.ListComp, ast.Call))
                  and 'self.select' in stmt_text(n.value)
                  and (isinstance(n.value, ast.ListComp)
@@ -643,6 +656,8 @@ def r01_5(ctx, counts: dict[str, int]) -> RuleResult:
         for st in walk_local(f.node):
             if isinstance(st, ast.If):
                 lists += [st.body, st.orelse]
+            elif isinstance(st, ast.Try):
+                lists += [st.body]
         desc = [numbering(f, ls, recv) for ls in lists if ls]
         has_desc = any(d == 'desc' and sz == 'ok' for d, sz, _ in desc)
         res.instances.append(f'{pname} "[": select_with_focus -> {f.key} reads reverse_axis='
@@ -813,10 +828,78 @@ def r01_6(ctx, counts: dict[str, int]) -> RuleResult:
     return res
 
 
+def r01_7(ctx, counts: dict[str, int]) -> RuleResult:
+    """the saved focus is restored in a finally: an abandoned generator restores it too"""
+    model: Model = ctx.model
+    res = RuleResult(
+        'R01.7', 'FOCUS-RESTORED-ON-ABANDONMENT',
+        'The context iterators and the select_with_focus functions are generators that move the '
+        'focus (item, axis, position, size) of a context they share with their caller, having '
+        'saved it in a local (`status = self.item, self.axis`). fn:head, fn:exists, fn:boolean, '
+        'a positional predicate, `is`, `if` take the first item of such a generator and abandon '
+        'it; the generator is then closed at the yield. Every yield that lies between the save '
+        'and the restoring assignment is therefore inside a `try` whose `finally` block contains '
+        'the restoring assignment from the saved local. Otherwise the caller goes on with the '
+        'inner focus: (10,20,30) ! (let $h := head((5,6)[. = 5]) return .) was (5,5,5).')
+    n = 0
+    for f in sorted(model.all_functions(), key=lambda q: q.key):
+        if not f.module.name.startswith('elementpath.xpath') or not any(
+                isinstance(x, (ast.Yield, ast.YieldFrom)) for x in walk_local(f.node)):
+            continue
+        recvs = {'self'} if f.cls is not None and 'Context' in f.cls.name else set()
+        recvs |= {p_ for p_ in f.params() if p_ == 'context'}
+        if not recvs:
+            continue
+        saves: dict[str, ast.Assign] = {}
+        for x in walk_local(f.node):
+            if isinstance(x, ast.Assign) and len(x.targets) == 1 \
+                    and isinstance(x.targets[0], ast.Name):
+                parts = x.value.elts if isinstance(x.value, ast.Tuple) else [x.value]
+                if parts and all(isinstance(e, ast.Attribute) and isinstance(e.value, ast.Name)
+                                 and e.value.id in recvs and e.attr in FOCUS for e in parts):
+                    saves[x.targets[0].id] = x
+
+        def is_restore_of(st: ast.AST, var: str) -> bool:
+            return isinstance(st, ast.Assign) and isinstance(st.value, ast.Name) \
+                and st.value.id == var and all(
+                    isinstance(e, ast.Attribute) and isinstance(e.value, ast.Name)
+                    and e.value.id in recvs and e.attr in FOCUS
+                    for t in st.targets for e in (t.elts if isinstance(t, ast.Tuple) else [t]))
+        encl = enclosing_map(f.node)
+        for var, sv in sorted(saves.items()):
+            restores = [x for x in walk_local(f.node) if is_restore_of(x, var)]
+            if not restores:
+                continue
+            last = max(r.lineno for r in restores)
+            ys = [y for y in walk_local(f.node) if isinstance(y, (ast.Yield, ast.YieldFrom))
+                  and sv.lineno < y.lineno < last]
+            for y in ys:
+                n += 1
+                guarded = any(isinstance(t, ast.Try) and any(
+                    is_restore_of(r, var) for fb in t.finalbody for r in ast.walk(fb))
+                    and any(z is y for b in t.body for z in ast.walk(b))
+                    for t in encl.get(id(y), []))
+                res.instances.append(f'{f.key}: L{y.lineno} yield between the save of `{var}` '
+                                     f'and its restore: restore in a finally: {guarded}')
+                if guarded:
+                    res.ok()
+                else:
+                    res.fail(finding('R01.7', f, y, f'yield outside try/finally of {var}',
+                                     f'`{stmt_text(y)[:40]}` yields with the focus moved; the '
+                                     f'restore `{stmt_text(restores[-1])[:60]}` is not in a '
+                                     f'finally block around it: a consumer that takes one item '
+                                     f'and drops the generator (head, exists, boolean, [1], is) '
+                                     f'leaves the caller on the inner focus'))
+    counts['focus_yields'] = n
+    if n < 12:
+        raise AnalysisError(f'yields between a focus save and its restore: {n} < 12')
+    return res
+
+
 def run(ctx) -> dict:
     counts: dict[str, int] = {}
     results = [r01_1(ctx, counts), r01_2(ctx, counts), r01_3(ctx, counts), r01_4(ctx, counts),
-               r01_5(ctx, counts), r01_6(ctx, counts)]
+               r01_5(ctx, counts), r01_6(ctx, counts), r01_7(ctx, counts)]
     # document order of '|' and of the leading '//' (accumulated results are yielded sorted)
     from .c02_trees import r02_3
     results.append(r02_3(ctx, counts))
